@@ -135,19 +135,21 @@ def main():
     ck = Check("C04")
     if ck.replay:
         body = json.load(open(os.path.join(VERIF, ck.replay) if not os.path.isabs(ck.replay) else ck.replay))
-        run_case(ck, body["case"])
+        ck.guard(run_case, ck, body["case"])
         ck.finish(rule="replay of one recorded case")
     ck.lean_obligations("CvProps.C04", THEOREMS)
     for case in json.load(open(os.path.join(VERIF, "harness", "corpus", "C04.json"))):
-        run_case(ck, case)
+        ck.guard(run_case, ck, case)
         ck.count("corpus")
     for _ in range(70 if not ck.thorough else 2500):
         if ck.enough():
             break
-        run_case(ck, gen_case(ck, 1200 if not ck.thorough else 20000))
+        ck.guard(run_case, ck, gen_case(ck, 1200 if not ck.thorough else 20000))
     ck.assumptions = ["hash injective on the ball, the query and its inverse-neighbours (H2 events are violations)", "max_diameter >= 1 semantics: D = 0 is passed as max_diameter=0 and yields the one-layer ball"]
     ck.finish(rule="generated definitions with constructible inverse x ball depth D in {0, 1, ecc/2, ecc-1, ecc, ecc+2, random} x queries inside / on the boundary of / outside the ball and outside the orbit; judged by Spec distances (proven reference BFS) and replay of the path with plain integer arithmetic")
 
 
 if __name__ == "__main__":
-    main()
+    from cv.core import run_main
+
+    run_main(main)
